@@ -546,6 +546,7 @@ def r30_conv_geometry(facts):
             tree = _canon(t, e, atoms)
             if tree is not None:
                 counts.append((fn, b, e, tree, len(atoms)))
+    _stride_as_given(facts, c)
     c.count("usize operations typed", total_typed)
     c.count("axis checks performed", total_checks)
     c.count("index decodings typed", total_dec)
@@ -591,3 +592,136 @@ def r30_conv_geometry(facts):
     else:
         c.unk("count:none", "-", "no window-count expression of the form `X / atom + 1` found in the convolution routines")
     return c
+
+
+def _stride_as_given(facts, c):
+    """the public convolution hands its stride pair on untransformed: to the unrolling routine and as the divisor of the window counts"""
+    for fn in facts.fns():
+        if not (fn.get("impl_self") == ARRAY and fn.get("impl_trait_def") is None and (fn.get("inputs") or []) == ["&" + ARRAY, "&" + ARRAY, PAIR]):
+            continue
+        ps = [p for p in facts.params(fn) if p.get("pat")]
+        sp = ps[2]["pat"]
+        lets = {}
+        comp = {}       # var -> class
+        if sp.get("k") == "Binding":
+            comp[sp["v"]] = ("whole",)
+        else:
+            for v, _, _, path in F.pat_bindings(sp):
+                idx = [x for x in path if x != "*"]
+                if len(idx) == 1 and idx[0] in ("0", "1"):
+                    comp[v] = ("id", int(idx[0]))
+        root = facts.root(fn)
+        for n in walk(root):
+            if n.get("k") == "Block":
+                for s_ in n["stmts"]:
+                    if s_["s"] == "let" and s_.get("init") is not None:
+                        lets.setdefault(id(s_), s_)
+        memo = {}
+
+        def cls(e, depth=0):
+            e = strip(e)
+            if not isinstance(e, dict) or depth > 12:
+                return None
+            k = e.get("k")
+            if k in ("VarRef", "UpvarRef"):
+                return comp.get(e["v"])
+            if k in ("Borrow", "Deref", "Use", "Cast"):
+                return cls(e["e"], depth + 1)
+            if k == "Tuple":
+                parts = [cls(x, depth + 1) for x in e["fields"]]
+                if all(p_ is None for p_ in parts):
+                    return None
+                return ("pair", tuple(parts))
+            if k == "Field" and e.get("idx") is not None:
+                b_ = cls(e["e"], depth + 1)
+                if b_ == ("whole",):
+                    return ("id", e["idx"])
+                if b_ and b_[0] == "pair" and e["idx"] < len(b_[1]):
+                    return b_[1][e["idx"]]
+                return b_ if b_ and b_[0] == "alt" else None
+            if k == "Block" and e.get("e") is not None and not e["stmts"]:
+                return cls(e["e"], depth + 1)
+            # anything else that mentions a stride-derived value transforms it; through a crate-local helper nothing is known
+            for x in walk(e):
+                if x.get("k") in ("VarRef", "UpvarRef") and comp.get(x["v"]) is not None:
+                    local = any(y.get("k") == "Call" and (y.get("callee") or {}).get("resolved_local") for y in walk(e))
+                    return ("alt", show(e)[:60], not local)
+            return None
+        # bind lets in order (a fixed number of rounds is enough for straight-line code)
+        for _ in range(4):
+            for s_ in lets.values():
+                init = s_["init"]
+                pat = s_["pat"]
+                ci = cls(init)
+                if pat.get("k") == "Binding":
+                    if ci is not None and not _is_count_expr(init):
+                        comp[pat["v"]] = ci
+                elif pat.get("k") == "Leaf":
+                    for v, _, _, path in F.pat_bindings(pat):
+                        idx = [x for x in path if x != "*"]
+                        if len(idx) != 1 or not idx[0].isdigit():
+                            continue
+                        i = int(idx[0])
+                        if ci == ("whole",):
+                            comp[v] = ("id", i)
+                        elif ci and ci[0] == "pair" and i < len(ci[1]) and ci[1][i] is not None:
+                            comp[v] = ci[1][i]
+                        elif ci and ci[0] == "alt":
+                            comp[v] = ci
+        inst = "stride-as-given:%s" % fn.get("name")
+        where0 = F.loc(fn, root)
+        verdict = None
+        n_sinks = 0
+        for n in walk(root):
+            # the unrolling routine (array, pair, pair) is where the stride places the windows; other pair arguments (window counts) are not strides
+            cbody = facts.body(resolved(n)) if n.get("k") == "Call" and (n.get("callee") or {}).get("resolved_local") else None
+            if cbody is not None and (cbody.get("inputs") or []) == ["&" + ARRAY, PAIR, PAIR]:
+                for a in n["args"]:
+                    a0 = strip(a)
+                    if isinstance(a0, dict) and a0.get("ty") == PAIR:
+                        k_ = cls(a0)
+                        if k_ is None:
+                            continue
+                        n_sinks += 1
+                        ok_ = k_ == ("whole",) or (k_[0] == "pair" and tuple(k_[1]) == (("id", 0), ("id", 1)))
+                        if not ok_:
+                            why = k_[1] if k_[0] == "alt" else ("components %s" % (k_[1],) if k_[0] == "pair" else str(k_))
+                            if k_[0] == "alt" or (k_[0] == "pair" and any(p_ and p_[0] == "alt" for p_ in k_[1])):
+                                alt = k_ if k_[0] == "alt" else [p_ for p_ in k_[1] if p_ and p_[0] == "alt"][0]
+                                if len(alt) > 2 and not alt[2]:
+                                    verdict = verdict or ("unk", F.loc(fn, a0), "the stride pair handed to `%s` goes through a crate-local helper (`%s`)" % ((resolved(n) or "").rsplit("::", 1)[-1], alt[1]))
+                                    continue
+                                verdict = ("bad", F.loc(fn, a0), "the stride pair handed to `%s` is not the caller's stride but `%s`: windows are placed with a different stride than requested"
+                                           % ((resolved(n) or "").rsplit("::", 1)[-1], alt[1]))
+                            elif k_[0] == "pair" and tuple(k_[1]) == (("id", 1), ("id", 0)):
+                                verdict = ("bad", F.loc(fn, a0), "the stride pair is handed on with its components swapped")
+                            else:
+                                verdict = verdict or ("unk", F.loc(fn, a0), "how the stride pair handed to `%s` derives from the parameter is not recognised (%s)" % ((resolved(n) or "").rsplit("::", 1)[-1], why))
+            if _is_count_expr(n):
+                d = strip(strip(n)["l"])["r"]
+                k_ = cls(d)
+                if k_ is not None:
+                    n_sinks += 1
+                    if k_[0] == "alt" and (len(k_) < 3 or k_[2]):
+                        verdict = ("bad", F.loc(fn, n), "the window count divides by `%s`, not by the caller's stride" % k_[1])
+                    elif k_[0] == "alt":
+                        verdict = verdict or ("unk", F.loc(fn, n), "the divisor of the window count goes through a crate-local helper")
+                    elif k_[0] != "id":
+                        verdict = verdict or ("unk", F.loc(fn, n), "divisor of the window count not recognised")
+        if verdict is None and n_sinks:
+            c.ok(inst, where0, "the stride parameter reaches the unrolling routine and the window counts untransformed (%d uses)" % n_sinks)
+        elif verdict is None:
+            c.unk(inst, where0, "no use of the stride parameter recognised")
+        elif verdict[0] == "bad":
+            c.bad(inst, verdict[1], verdict[2])
+        else:
+            c.unk(inst, verdict[1], verdict[2])
+
+
+def _is_count_expr(n):
+    """X / s + 1"""
+    n = strip(n)
+    if not (isinstance(n, dict) and n.get("k") == "Binary" and n.get("op") == "Add" and F.lit_value(n["r"]) == 1):
+        return False
+    l = strip(n["l"])
+    return isinstance(l, dict) and l.get("k") == "Binary" and l.get("op") == "Div"
